@@ -5,7 +5,9 @@ from common import apply, maybe_mutants
 
 def run(prog, rep, tier):
     rep.clause = ("P2: every member function of `stack` that grows/shrinks m_values also writes m_profile (overload dispatch depends only on the "
-                  "values near the top of the stack), with the encoding facts selector::W == 4, 8-bit type codes, 32-bit profile; P1: every "
+                  "values near the top of the stack), with the encoding facts selector::W == 4, 8-bit type codes, 32-bit profile; P2b: the bodies of stack::push/pop/drop, interpreted by the finite-domain evaluator on every "
+                  "stack of depth <= W+2 (W+3) over 2 (3) type codes and every run of pops/drops from it, leave m_profile equal to the encoding of "
+                  "the top W value types; P1: every "
                   "value_producer (21) numbers the values it yields with a post-incremented member counter that every constructor initialises to 0 "
                   "and that is changed nowhere else in next(), or with literal 0; R5: counters used for numbering inside ops are reset per input "
                   "(each operation numbers its results afresh); P3: an operand of an unsupported type makes overload_op print a diagnostic on stderr "
@@ -13,6 +15,7 @@ def run(prog, rep, tier):
     rep.not_decided = "what the words compute (string and sequence algebra, embedded NUL, needles longer than haystacks, radix conversion)."
     apply(rep, "P1", "results are numbered from a zero-initialised counter", r_core.p1(prog), 18)
     apply(rep, "P2", "stack mutators maintain the type profile", r_core.p2(prog), 5)
+    apply(rep, "P2b", "profile == types of the top W values after every push/pop/drop (abstract evaluation)", r_core.p2b(prog, tier), 2)
     apply(rep, "P3", "unsupported operand: diagnostic and no result", r_core.p3(prog), 3)
     r5 = r_stream.r5(prog)
     apply(rep, "R5", "numbering counters of ops are reset per input", ([i for i in r5[0] if "m_pos" in i[0]], [f for f in r5[1] if "m_pos" in f["key"]]), 1)
